@@ -142,7 +142,7 @@ package cbreaker
 //@   ensures {C12} every_request_of_the_recovery_is_counted: !callres(isStandby, 0, 0) && c.state == 2 ==> c.rc.allowed + c.rc.denied == ite(old(c.state) == 2, old(c.rc.allowed) + old(c.rc.denied), 0) + 1 && (result <==> c.rc.denied == ite(old(c.state) == 2, old(c.rc.denied), 0) + 1)
 
 //@ func (*CircuitBreaker).checkAndSet
-//@   props C05 C12 C18
+//@   props C05 C12 C18 C20
 //@   assume clock_stable
 //@   modifies c.state, c.until, c.lastCheck, everything
 //@   ensures not_due_no_change: !callres(timeToCheck, 0, 0) ==> calls(c.condition) == 0 && calls(Reset) == 0
